@@ -524,6 +524,27 @@ func c12Run(r *mon.Run) {
 			big("[" + strings.Repeat(" ", n) + "]")
 		}
 	}
+	// (4) every byte 0x00-0xFF inserted at every position of small valid documents (blank-like bytes that are not
+	// JSON white space - VT, FF, NEL, NBSP, NUL, DEL - must be refused wherever they stand outside a string)
+	{
+		ii := 0
+		for _, base := range []string{`{}`, `[1,2]`, `12`, `-0.5e3`, `"a"`, `{"a":1}`, `true`, `null`, `[{"k":[]}]`, ` {"a" : "b"} `, "[\n1\n]"} {
+			for pos := 0; pos <= len(base); pos++ {
+				if !r.Mine(ii) {
+					ii++
+					continue
+				}
+				ii++
+				for b := 0; b < 256; b++ {
+					doc := append(append(append([]byte(nil), base[:pos]...), byte(b)), base[pos:]...)
+					c12Doc(r, doc, false)
+					c12Doc(r, doc, true)
+				}
+				r.Nontrivial("ins", base, fmt.Sprint(pos))
+				r.Count("single_byte_insertions", 256)
+			}
+		}
+	}
 	// hook evidence
 	for name, cnt := range verifhook.ScanPairs()[verifhook.KindJSONDoc] {
 		r.Count("pair:jsondoc:"+shortState(name), cnt)
@@ -550,7 +571,7 @@ func init() {
 			stdjson.Unmarshal(raw, &c)
 			c12Doc(r, c.Doc, c.Trailing)
 		},
-		Rule:               "every byte string over a 31-symbol JSON alphabet ({ } [ ] : , quote backslash / u b 0 1 9 - + . e E t r f a l s n space LF é 0x1f 0x7f) up to length 6 (quick) / 7 (thorough), pruned only below prefixes that both the library and encoding/json reject because of an offending byte, plus generated documents (depth <= 7, all escape forms, random blanks) and their byte mutations / trailers, plus big documents (arrays / objects of 8..4097 members, nesting 8..4097 deep, strings and numbers 8..4097 units long, each also with a trailer and cut short); each text is checked in strict and trailing mode (texts up to 4 bytes and one in eight longer ones also with Len() before Check(), Check() repeated and all lexemes read before Check() on one object, which must answer like a fresh object): Check() vs encoding/json.Valid resp. a streaming Decoder, Len(), and for accepted texts the NextLexeme stream (nesting, spans, literal coverage) and the token tree vs encoding/json's. distinct_nontrivial = distinct texts (hashed).",
+		Rule:               "every byte string over a 31-symbol JSON alphabet ({ } [ ] : , quote backslash / u b 0 1 9 - + . e E t r f a l s n space LF é 0x1f 0x7f) up to length 6 (quick) / 7 (thorough), pruned only below prefixes that both the library and encoding/json reject because of an offending byte, plus generated documents (depth <= 7, all escape forms, random blanks) and their byte mutations / trailers, plus every byte 0x00-0xFF inserted at every position of 11 small documents, plus big documents (arrays / objects of 8..4097 members, nesting 8..4097 deep, strings and numbers 8..4097 units long, each also with a trailer and cut short); each text is checked in strict and trailing mode (texts up to 4 bytes and one in eight longer ones also with Len() before Check(), Check() repeated and all lexemes read before Check() on one object, which must answer like a fresh object): Check() vs encoding/json.Valid resp. a streaming Decoder, Len(), and for accepted texts the NextLexeme stream (nesting, spans, literal coverage) and the token tree vs encoding/json's. distinct_nontrivial = distinct texts (hashed).",
 		MinNontrivialQuick: 100000, MinNontrivialThorough: 1000000,
 		Assumptions: []string{"encoding/json (Valid, Decoder) is the independent RFC 8259 decoder", "invalid UTF-8 inside strings is not judged differently from encoding/json (which accepts it)",
 			"trailing mode reference: accepted iff a streaming json.Decoder decodes a first value"},
